@@ -51,7 +51,7 @@ func init() {
 			c.guard("C01.4", func() { ruleReplyEchoesId(c, "C01.4") })
 			c.guard("C01.5", func() { ruleDispatchById(c, "C01.5") })
 			c.guard("C01.6", func() { ruleHandlerExactlyOnce(c, "C01.6") })
-			c.guard("C01.7", func() { rulePayloadProvenance(c, "C01.7") })
+			c.guard("C01.7", func() { rulePayloadProvenance(c, "C01.7"); ruleCodecErrorsHonoured(c, "C01.7") })
 			c.guard("C01.8", func() { ruleHandlerGate(c, "C01.8") })
 			c.guard("C01.9", func() {
 				// the shipped topologies and transports hand the very envelope on (rules shared with C16, C18, C19)
@@ -87,7 +87,11 @@ func init() {
 				}, true)
 			})
 			c.guard("C02.2", func() { rulePerEnvelopeGoroutines(c, "C02.2") })
-			c.guard("C02.3", func() { ruleBodyForwarded(c, "C02.3"); ruleStreamPayloadProvenance(c, "C02.3") })
+			c.guard("C02.3", func() {
+				ruleBodyForwarded(c, "C02.3")
+				ruleStreamPayloadProvenance(c, "C02.3")
+				ruleCodecErrorsHonoured(c, "C02.3")
+			})
 			c.guard("C02.4", func() { ruleEOFOnlyOnOKTrailer(c, "C02.4") })
 			c.guard("C02.5", func() { ruleTerminalStateBeatsCancel(c, "C02.5") })
 			c.guard("C02.6", func() {
@@ -309,7 +313,7 @@ func init() {
 		ruleText:    "obligation = one return, field access, panic site, exit path, channel operation; non-trivial = needed facts, provenance, path search, locksets",
 		assumptions: baseAssumptions,
 		run: func(c *Ctx, thorough bool) {
-			c.guard("C13.1", func() { ruleValueOrError(c, "C13.1") })
+			c.guard("C13.1", func() { ruleValueOrError(c, "C13.1"); ruleCodecErrorsHonoured(c, "C13.1") })
 			c.guard("C13.2", func() {
 				n := ruleOptionalSubMsgNilChecked(c, "C13.2", c.p.reachFns("client.", "goat.ClientConn.", "goat.headersFromContext"), nil)
 				c.floor("C13.2", "field accesses through optional sub-messages (client side)", n, 2)
